@@ -172,7 +172,7 @@ Definition mldsa_44 : N := 3.
 Definition mldsa44_pub_size : N := 1312.
 Definition mldsa65_pub_size : N := 1952.
 Definition mldsa87_pub_size : N := 2592.
-Definition pt_with_id_requirement : N := 5.        (* OutputPrefixType_WITH_ID_REQUIREMENT (refused by keyset.Validate) *)
+Definition pt_with_id_requirement : N := 5.        (* OutputPrefixType_WITH_ID_REQUIREMENT (accepted by keyset.Validate since /repo 4b80d2c) *)
 
 (* ---- SLH-DSA: signature/slhdsa/key.go parameter sets: private key of 4n = 64, 96, 128 bytes ---- *)
 Definition slhdsa_key_a : N := 64.
